@@ -155,6 +155,10 @@ package keygen
 //@   loop 4: invariant each(exponents, q, polynomial.expok(q) && polynomial.polydeg(q) == r.threshold && q.IsConstant == r.refresh) && (visited(4, r.Helper.info.SelfID) ==> len(exponents) > 0)
 //@   assert_at[C14] ResultRound "return r.ResultRound(&Config{": typeis(arg1, *Config) && arg1.(*Config).ChainKey == ChainKey && len(ChainKey) == 32
 //@   assert_at[C14] ResultRound "return r.ResultRound(&TaprootConfig{": typeis(arg1, *TaprootConfig) && arg1.(*TaprootConfig).ChainKey == ChainKey && len(ChainKey) == 32
+// refinement of the interface contract of round.Round.Finalize (what the handler relies on)
+//@   ensures result1 == nil ==> result0 != nil
+//@   ensures typeis(result0, *round.Abort) ==> result0.(*round.Abort).Err != nil
+//@   ensures typeis(result0, *round.Output) ==> result0.(*round.Output).Result != nil
 
 //@ func (*round2).Finalize
 //@   nopanic[C05]
@@ -164,8 +168,18 @@ package keygen
 //@   requires forall(x, party.ID, inslice(r.Helper.otherPartyIDs, x) ==> inslice(r.Helper.partyIDs, x))
 // (induction on the session object) on success the next round starts from the state invariant its methods assume
 //@   ensures result1 == nil ==> (typeis(result0, *round3) && r3ok(result0.(*round3)) && result0.(*round3).round2 == r)
+// refinement of the interface contract of round.Round.Finalize (what the handler relies on)
+//@   ensures !closed(out)
+//@   ensures result1 == nil ==> result0 != nil
+//@   ensures typeis(result0, *round.Abort) ==> result0.(*round.Abort).Err != nil
+//@   ensures typeis(result0, *round.Output) ==> result0.(*round.Output).Result != nil
 //@ func (*round1).Finalize
 //@   nopanic[C05]
 //@   requires r1ok(r) && out != nil && !closed(out)
 // (induction on the session object) on success the next round starts from the state invariant its methods assume
 //@   ensures result1 == nil ==> (typeis(result0, *round2) && r2ok(result0.(*round2)) && result0.(*round2).round1 == r && result0.(*round2).f_i.group != nil && each(result0.(*round2).f_i.coefficients, c, c != nil))
+// refinement of the interface contract of round.Round.Finalize (what the handler relies on)
+//@   ensures !closed(out)
+//@   ensures result1 == nil ==> result0 != nil
+//@   ensures typeis(result0, *round.Abort) ==> result0.(*round.Abort).Err != nil
+//@   ensures typeis(result0, *round.Output) ==> result0.(*round.Output).Result != nil
